@@ -208,7 +208,7 @@ theorem parse_size (cfg : Cfg) (fs : Fields) (sz : Nat) (data : Bytes) (pos : Na
   split at h
   · cases h
   · cases h
-    exact ⟨by rw [hl], rfl, hl⟩
+    exact ⟨rfl, rfl, hl⟩
 
 theorem assign_bytes (cfg : Cfg) (fs : Fields) (s : UState) (k : Nat) (v : Val) (s' : UState)
     (h : assign cfg fs s k v = .ok s') :
